@@ -8,6 +8,7 @@ import (
 	"encoding/json"
 	"fmt"
 	"go/types"
+	"os"
 	"sort"
 	"strings"
 	"time"
@@ -116,6 +117,32 @@ func RunJob(prog *ssa.Program, fn *ssa.Function, job Job) Result {
 	}
 	for k := range InitFailures {
 		delete(InitFailures, k)
+	}
+	if os.Getenv("GOSYM_DECIDE_PROFILE") != "" {
+		x.DecideProfile = map[string]int{}
+		QueryProfile = map[string]int{}
+		defer func() {
+			for k, v := range QueryProfile {
+				if v > 50 {
+					fmt.Fprintf(os.Stderr, "query-profile %8d %s\n", v, k)
+				}
+			}
+			type kv struct {
+				k string
+				v int
+			}
+			var all []kv
+			for k, v := range x.DecideProfile {
+				all = append(all, kv{k, v})
+			}
+			sort.Slice(all, func(i, j int) bool { return all[i].v > all[j].v })
+			for i, e := range all {
+				if i > 15 {
+					break
+				}
+				fmt.Fprintf(os.Stderr, "decide-profile %8d %s\n", e.v, e.k)
+			}
+		}()
 	}
 	t0 := time.Now()
 	func() {
